@@ -192,9 +192,10 @@ func (r *standardRenderer) flush() {
 	if flushQueuedMessages {
 		// Dump the lines we've queued up for printing.
 		for _, line := range r.queuedMessageLines {
-			if ansi.StringWidth(line) < r.width {
-				// We only erase the rest of the line when the line is shorter than
-				// the width of the terminal. When the cursor reaches the end of
+			if w := ansi.StringWidth(line); r.width > 0 && (w == 0 || w%r.width != 0) {
+				// A printed line is not truncated: it may wrap over several
+				// rows. We erase the rest of the row it ends in, unless it ends
+				// exactly at the end of a row. When the cursor reaches the end of
 				// the line, any escape sequences that follow will only affect the
 				// last cell of the line.
 
